@@ -14,7 +14,35 @@ From stdpp Require Import gmap.
 From RaftModel Require Import Base Config Compaction Commitment Node NodeCodec Candidate Leader Replicate Cluster ClusterLog.
 Open Scope N_scope.
 
-Record lead := mkLead { ld_cm : commitment; ld_infl : list (entry * N) }.
+(* per follower (replication.go followerReplication): nextIndex, and the request whose answer the
+   synchronous replicateTo is waiting for (its position in lg_msgs) *)
+Record lead := mkLead {
+  ld_cm : commitment; ld_infl : list (entry * N);
+  ld_next0 : N;                    (* nextIndex every follower starts with: lastIndex + 1 at setupLeaderState *)
+  ld_next : list (N * N);          (* followers whose nextIndex has moved since *)
+  ld_out : list (N * nat);         (* follower -> outstanding request *)
+  ld_notified : bool;              (* commitCh holds a notification the leader loop has not consumed yet *)
+}.
+
+Fixpoint assoc {A} (l : list (N * A)) (j : N) : option A :=
+  match l with
+  | [] => None
+  | (k, x) :: r => if k =? j then Some x else assoc r j
+  end.
+Definition assoc_set {A} (l : list (N * A)) (j : N) (x : A) : list (N * A) :=
+  (j, x) :: filter (fun p => negb (fst p =? j)) l.
+Definition assoc_del {A} (l : list (N * A)) (j : N) : list (N * A) := filter (fun p => negb (fst p =? j)) l.
+
+Definition next_of (ld : lead) (j : N) : N := match assoc (ld_next ld) j with Some x => x | None => ld_next0 ld end.
+Definition with_cm (ld : lead) (cm : commitment) (infl : list (entry * N)) : lead :=
+  mkLead cm infl (ld_next0 ld) (ld_next ld) (ld_out ld) (ld_notified ld).
+Definition with_next (ld : lead) (j nx : N) : lead :=
+  mkLead (ld_cm ld) (ld_infl ld) (ld_next0 ld) (assoc_set (ld_next ld) j nx) (ld_out ld) (ld_notified ld).
+Definition with_out (ld : lead) (j : N) (o : option nat) : lead :=
+  mkLead (ld_cm ld) (ld_infl ld) (ld_next0 ld) (ld_next ld)
+         (match o with Some k => assoc_set (ld_out ld) j k | None => assoc_del (ld_out ld) j end) (ld_notified ld).
+Definition with_notified (ld : lead) (b : bool) : lead :=
+  mkLead (ld_cm ld) (ld_infl ld) (ld_next0 ld) (ld_next ld) (ld_out ld) b.
 
 (* an answer travelling back: to which request (position in lg_msgs), and what the follower said *)
 Record ares := mkARes { rs_req : nat; rs_resp : aresp }.
@@ -27,8 +55,11 @@ Record cgstate := mkCG {
 }.
 
 Inductive clabel :=
-| CBase (l : llabel)             (* a step of the replication system *)
-| CAck (n : nat).                (* the n-th answer is processed by the replication goroutine that sent the request *)
+| CBase (l : llabel)             (* a step of the replication system; LSend is replicateTo's START: it uses the follower's
+                                    nextIndex and there is no request outstanding for that follower *)
+| CAck (n : nat)                 (* the n-th answer, which answers the outstanding request, returns to replicateTo *)
+| CGiveUp (i j : N)              (* the transport call of the outstanding request fails (timeout, error): replicateTo returns *)
+| CCommit (i : N).               (* leaderLoop, case commitCh: the commit index moves to the commitment's, ready entries go to the FSM *)
 
 Fixpoint find_lead (l : list (N * lead)) (i : N) : option lead :=
   match l with
@@ -44,7 +75,8 @@ Definition set_lead (l : list (N * lead)) (i : N) (x : lead) : list (N * lead) :
 Definition fresh_lead (P : params) (s : nstate) : lead :=
   let li := last_index s in
   mkLead (cm_step (cm_new (v_latest s) li) (CMatch (p_self P) li))
-         (match d_log s !! li with Some e => [(e, 0)] | None => [] end).
+         (match d_log s !! li with Some e => [(e, 0)] | None => [] end)
+         li [] [] false.
 
 Definition role_of (r : nrun) : N := match r with Up s => v_role s | Down _ => 9 end.
 
@@ -60,9 +92,21 @@ Definition refresh_leads (before after : list gnode) (l : list (N * lead)) : lis
 
 Definition is_hb (g : cgstate) (k : nat) : bool := existsb (Nat.eqb k) (cg_hb g).
 
+(* LSend as replicateTo issues it: the follower's nextIndex, nothing outstanding *)
+Definition send_ok (g : cgstate) (bl : llabel) : bool :=
+  match bl with
+  | LSend i j next last =>
+    match find_lead (cg_lead g) i with
+    | Some ld => (next =? next_of ld j) && match assoc (ld_out ld) j with None => true | Some _ => false end
+    | None => false
+    end
+  | _ => true
+  end.
+
 Definition cstep (snaps : bool) (cfgs : list config) (g : cgstate) (l : clabel) : option cgstate :=
   match l with
   | CBase bl =>
+    if negb (send_ok g bl) then None else
     match lstep snaps cfgs (cg_l g) bl with
     | None => None
     | Some l' =>
@@ -76,10 +120,15 @@ Definition cstep (snaps : bool) (cfgs : list config) (g : cgstate) (l : clabel) 
             match gn_run n with
             | Up s =>
               let '(ls', _, _, _) := dispatch (gn_P n) (mkLS s (ld_cm ld) (ld_infl ld)) fs [(ty, data, 0)] in
-              set_lead (cg_lead g) i (mkLead (l_cm ls') (l_inflight ls'))
+              set_lead (cg_lead g) i (with_cm ld (l_cm ls') (l_inflight ls'))
             | Down _ => cg_lead g
             end
           | _, _ => cg_lead g
+          end
+        | LSend i j _ _ =>
+          match find_lead (cg_lead g) i with
+          | Some ld => set_lead (cg_lead g) i (with_out ld j (Some (length (lg_msgs (cg_l g)))))
+          | None => cg_lead g
           end
         | _ => cg_lead g
         end in
@@ -104,6 +153,35 @@ Definition cstep (snaps : bool) (cfgs : list config) (g : cgstate) (l : clabel) 
         end in
       Some (mkCG l' leads2 hb' ans')
     end
+  | CGiveUp i j =>
+    match find_node (g_nodes (lg_g (cg_l g))) i, find_lead (cg_lead g) i with
+    | Some n, Some ld =>
+      match gn_run n, assoc (ld_out ld) j with
+      | Up s, Some _ =>
+        if v_role s =? Leader
+        then Some (mkCG (cg_l g) (set_lead (cg_lead g) i (with_out ld j None)) (cg_hb g) (cg_ans g))
+        else None
+      | _, _ => None
+      end
+    | _, _ => None
+    end
+  | CCommit i =>
+    match find_node (g_nodes (lg_g (cg_l g))) i, find_lead (cg_lead g) i with
+    | Some n, Some ld =>
+      match gn_run n with
+      | Up s =>
+        if (v_role s =? Leader) && ld_notified ld then
+          match leader_commit (mkLS s (ld_cm ld) (ld_infl ld)) with
+          | Some (ls2, _, _) =>
+            Some (mkCG (mkLG (set_node_run (lg_g (cg_l g)) i n (Up (l_node ls2))) (lg_msgs (cg_l g)))
+                       (set_lead (cg_lead g) i (with_notified (with_cm ld (l_cm ls2) (l_inflight ls2)) false)) (cg_hb g) (cg_ans g))
+          | None => None                (* processLogs would panic: an entry at or below the commit index is missing *)
+          end
+        else None
+      | Down _ => None
+      end
+    | _, _ => None
+    end
   | CAck n =>
     match nth_error (cg_ans g) n with
     | None => None
@@ -111,42 +189,46 @@ Definition cstep (snaps : bool) (cfgs : list config) (g : cgstate) (l : clabel) 
       match nth_error (lg_msgs (cg_l g)) (rs_req a) with
       | None => None
       | Some m =>
-        if is_hb g (rs_req a) then None        (* heartbeat(): the answer only refreshes lastContact *)
-        else
-          let i := am_from m in
-          match find_node (g_nodes (lg_g (cg_l g))) i, find_lead (cg_lead g) i with
-          | Some n, Some ld =>
-            match gn_run n with
-            | Up s =>
-              (* the replication goroutine of THIS leadership: it ends when the server stops leading *)
-              if negb ((v_role s =? Leader) && (v_term s =? aq_term (am_req m))) then None
+        let i := am_from m in
+        let j := am_to m in
+        match find_node (g_nodes (lg_g (cg_l g))) i, find_lead (cg_lead g) i with
+        | Some n, Some ld0 =>
+          match gn_run n with
+          | Up s =>
+            (* the answer to the call replicateTo is blocked in, during the same leadership *)
+            if negb ((v_role s =? Leader) && (v_term s =? aq_term (am_req m))
+                     && match assoc (ld_out ld0) j with Some k => Nat.eqb k (rs_req a) | None => false end) then None
+            else
+              let ld := with_out ld0 j None in
+              let r := rs_resp a in
+              if aq_term (am_req m) <? ar_term r then
+                (* handleStaleTerm -> leaderLoop stepDown: setState(Follower) *)
+                Some (mkCG (mkLG (set_node_run (lg_g (cg_l g)) i n (Up (set_state s Follower))) (lg_msgs (cg_l g)))
+                           (set_lead (cg_lead g) i ld) (cg_hb g) (cg_ans g))
+              else if ar_success r then
+                match aq_entries (am_req m) with
+                | [] => Some (mkCG (cg_l g) (set_lead (cg_lead g) i ld) (cg_hb g) (cg_ans g))   (* updateLastAppended: nothing to record *)
+                | es =>
+                  let li := e_idx (last_of es) in
+                  let ld1 := with_next ld j (li + 1) in
+                  let ls1 := peer_match (mkLS s (ld_cm ld1) (ld_infl ld1)) j li in
+                  (* the replication goroutine only records the match; commitCh is notified when the commitment's
+                     commit index advanced, and the leader loop acts on it later (CCommit): a request built in
+                     between still carries the old commit index *)
+                  let ld2 := with_cm ld1 (l_cm ls1) (l_inflight ls1) in
+                  Some (mkCG (cg_l g)
+                             (set_lead (cg_lead g) i
+                                (if cm_commit (l_cm ls1) =? cm_commit (ld_cm ld1) then ld2 else with_notified ld2 true))
+                             (cg_hb g) (cg_ans g))
+                end
               else
-                let r := rs_resp a in
-                if aq_term (am_req m) <? ar_term r then
-                  (* handleStaleTerm -> leaderLoop stepDown: setState(Follower) *)
-                  Some (mkCG (mkLG (set_node_run (lg_g (cg_l g)) i n (Up (set_state s Follower))) (lg_msgs (cg_l g)))
-                             (cg_lead g) (cg_hb g) (cg_ans g))
-                else if ar_success r then
-                  match aq_entries (am_req m) with
-                  | [] => Some g                  (* updateLastAppended: nothing to record *)
-                  | es =>
-                    let ls1 := peer_match (mkLS s (ld_cm ld) (ld_infl ld)) (am_to m) (e_idx (last_of es)) in
-                    (* commitCh is notified only when the commitment's commit index advanced *)
-                    if cm_commit (l_cm ls1) =? cm_commit (ld_cm ld) then
-                      Some (mkCG (cg_l g) (set_lead (cg_lead g) i (mkLead (l_cm ls1) (l_inflight ls1))) (cg_hb g) (cg_ans g))
-                    else
-                    match leader_commit ls1 with
-                    | Some (ls2, _, _) =>
-                      Some (mkCG (mkLG (set_node_run (lg_g (cg_l g)) i n (Up (l_node ls2))) (lg_msgs (cg_l g)))
-                                 (set_lead (cg_lead g) i (mkLead (l_cm ls2) (l_inflight ls2))) (cg_hb g) (cg_ans g))
-                    | None => None                (* processLogs would panic: an entry at or below the commit index is missing *)
-                    end
-                  end
-                else Some g                       (* a refusal only moves nextIndex *)
-            | Down _ => None
-            end
-          | _, _ => None
+                (* a refusal: nextIndex = max(min(nextIndex-1, resp.LastLog+1), 1) *)
+                let nx := N.max (N.min (next_of ld j - 1) (ar_last r + 1)) 1 in
+                Some (mkCG (cg_l g) (set_lead (cg_lead g) i (with_next ld j nx)) (cg_hb g) (cg_ans g))
+          | Down _ => None
           end
+        | _, _ => None
+        end
       end
     end
   end.
@@ -179,35 +261,50 @@ Definition applied_within_commit (g : cgstate) : Prop :=
   forall a sa, In a (cnodes g) -> gn_run a = Up sa -> v_applied sa <= v_commit sa /\ v_commit sa <= last_index sa.
 
 (* ---------------------------------------------------------------- flat encoding (component 102) *)
-(* as component 101, plus:  12 n (process the n-th answer)
-   output per label: 0 | 1, per node: role term vterm vcand+1 lastIndex commit applied nfsm fsm* nlog (idx term ty data)*,
+(* as component 101, plus:  12 n (the n-th answer returns to replicateTo) | 13 i j (the outstanding call of i to j fails)
+   | 14 i (the leader loop consumes commitCh) | 99 <label> (no state dump)
+   output per label: 0 | 1, per node: role term vterm vcand+1 lastIndex commit applied nfsm fsm* nlog (idx term ty data)* npeers nextIndex*,
    leaders, requests, answers, newest request as in component 101 *)
-Definition enc_cnode (n : gnode) : list N :=
+Definition enc_cnode (g : cgstate) (n : gnode) : list N :=
   let s := image (gn_run n) in
   let l := sorted_log (log_of n) in
   enc_gnode n ++ [v_commit s; v_applied s; N.of_nat (length (v_fsm s))] ++ v_fsm s
-  ++ N.of_nat (length l) :: flat_map (fun e => [e_idx e; e_term e; e_ty e; e_data e]) l.
+  ++ N.of_nat (length l) :: flat_map (fun e => [e_idx e; e_term e; e_ty e; e_data e]) l
+  ++ (* a leader: the nextIndex of every other server, in id order *)
+     match gn_run n, find_lead (cg_lead g) (gn_id n) with
+     | Up s', Some ld =>
+       if v_role s' =? Leader
+       then let peers := filter (fun j => negb (j =? gn_id n)) (map gn_id (cnodes g)) in
+            N.of_nat (length peers) :: map (next_of ld) peers
+       else [0]
+     | _, _ => [0]
+     end.
 
 Definition enc_cgstate (g : cgstate) : list N :=
-  flat_map enc_cnode (cnodes g)
+  flat_map (enc_cnode g) (cnodes g)
   ++ [N.of_nat (length (g_leaders (lg_g (cg_l g)))); N.of_nat (length (lg_msgs (cg_l g))); N.of_nat (length (cg_ans g))]
   ++ match rev (lg_msgs (cg_l g)) with m :: _ => enc_amsg m | [] => [] end.
 
 Definition dec_clabel (l : list N) : option (clabel * list N) :=
   match l with
   | 12 :: n :: r => Some (CAck (N.to_nat n), r)
+  | 13 :: i :: j :: r => Some (CGiveUp i j, r)
+  | 14 :: i :: r => Some (CCommit i, r)
   | _ => match dec_llabel l with Some (bl, r) => Some (CBase bl, r) | None => None end
   end.
 
+(* a label preceded by 99 is taken without a state dump (output 2): the harness could not observe the
+   state in between (the leader loop and the replication goroutine had both moved on) *)
 Fixpoint run_clabels (cfg : config) (fuel : nat) (g : cgstate) (l : list N) : list N :=
   match fuel with
   | O => []
   | S f =>
-    match dec_clabel l with
+    let '(silent, l1) := match l with 99 :: r => (true, r) | _ => (false, l) end in
+    match dec_clabel l1 with
     | None => []
     | Some (lb, rest) =>
       match cstep true [cfg] g lb with
-      | Some g' => (1 :: enc_cgstate g') ++ run_clabels cfg f g' rest
+      | Some g' => (if silent then [2] else 1 :: enc_cgstate g') ++ run_clabels cfg f g' rest
       | None => 0 :: run_clabels cfg f g rest
       end
     end
